@@ -163,7 +163,7 @@ fn compare(rep: &mut Report, via: &str, case: &Case, got: &[Value]) -> bool {
 }
 
 pub fn run(tier: Tier, seed: u64) -> MonOut {
-    let n = tier.n(20_000, 1_500_000);
+    let n = tier.n(80_000, 3_000_000);
     let rep = par_cases(seed, n, |_i, rng, rep| {
         rep.eval();
         let case = gen_case(rng);
